@@ -177,6 +177,10 @@ func CutLoop(fn string, loop int, inv interface{}) {}
 // arbitrary state of its loop variables (gosym only; the path ends there).
 func RunLoopBody(fn string, loop int, inv interface{}) {}
 
+// TaskRangesPartition asserts (gosym only) that the workers of the last
+// fork/join called the kernels on consecutive non-empty ranges covering [0, total).
+func TaskRangesPartition(total int) {}
+
 // KernelCoverage asserts (gosym only) that the assembly-kernel calls made on
 // abstract buffers partition [0, total).
 func KernelCoverage(total int) {}
